@@ -10,9 +10,6 @@ Import ListNotations.
 Ltac Zify.zify_post_hook ::= Z.div_mod_to_equations.
 Local Open Scope N_scope.
 
-Lemma Ok_inj {A} (a b : A) : Ok a = Ok b -> a = b.
-Proof. congruence. Qed.
-
 Section RT.
 Variable m : N -> N.
 Hypothesis Hm : gid16 m.
